@@ -175,7 +175,7 @@ def cmdSem (ns name : Str) (input : Val) (vars : Vars) (args : List Val) : CmdEf
     (match args with | [.flt r] => .value (.str (s "f=" ++ r)) | _ => .unmodelled)
   else if ns == s "root" && name == s "bo" then
     (match args with | [.bool b] => .value (.list [input, .bool b]) | _ => .unmodelled)
-  else if ns == s "root" && (name == s "ident" || name == s "vol" || name == s "attr1" || name == s "attr2") then .value input
+  else if ns == s "root" && (name == s "ident" || name == s "nvol" || name == s "vol" || name == s "attr1" || name == s "attr2") then .value input
   else if ns == s "root" && name == s "boom" then .raises
   else if ns == s "root" && name == s "tnum" then
     (match input with
